@@ -129,7 +129,7 @@ func (pe *pairEnv) vkey(op, kind string) string {
 }
 
 func (pe *pairEnv) replay(bh PBehaviour, id string) bool {
-	if len(bh) != 6 || bh[0].Op != "init" {
+	if len(bh) != 8 || bh[0].Op != "init" {
 		return false
 	}
 	suite := pe.e1.G.Suite
@@ -181,7 +181,7 @@ func (pe *pairEnv) replay(bh PBehaviour, id string) bool {
 		var dstReg map[string]kyber.Point
 		ok := true
 		switch st.Op {
-		case "a.skip", "b.skip":
+		case "a.skip", "b.skip", "t.skip":
 			continue
 		case "a.add", "a.neg", "a.mul", "b.add", "b.neg", "b.mul":
 			env, R := pe.e1, A
